@@ -196,6 +196,13 @@ def run_property(pid, P, tier, seed):
                     out["functions"].append(f)
             expect_kf = h.get("known_finding")
             if r["status"] in ("timeout", "missing", "unknown"):
+                if expect_kf and not h.get("optional"):
+                    # the harness of a LISTED finding did not finish: the finding stays listed (it is only removed by a run
+                    # in which the harness passes); this is not an undecided obligation of the property
+                    kf = next((k for k in kfs if k["id"] == expect_kf and k["property"] == pid), None)
+                    if kf:
+                        out["known"].append((kf, dict(obligation="kani harness %s did not finish (%s): finding not re-confirmed in this run" % (h["name"], r["status"]), harness=h["name"])))
+                        continue
                 if h.get("optional"):
                     out.setdefault("optional_undecided", []).append("%s: %s within %ds (optional deep harness: not decided, not counted)" % (h["name"], r["status"], h.get("timeout", 300)))
                 else:
